@@ -237,10 +237,13 @@ def run_check(prop: str, tier: str, seed: int) -> int:
     reproduced = set()
     nrep = 0
     found_input = False
+    per_key = {}
     for st in stages:
         for v in st.violations:
             if v.key in known_keys:
                 reproduced.add(v.key); continue
+            per_key[(st.name, v.key)] = per_key.get((st.name, v.key), 0) + 1
+            if per_key[(st.name, v.key)] > 3: continue      # at most three replays per kind of failure
             nrep += 1
             path = write_replay(prop, nrep, dict(property=prop, stage=st.name, key=v.key, what=v.what, replay=v.replay,
                                                  broken_obligation=ctx.coq_error or ctx.gen_error or None))
